@@ -328,6 +328,20 @@ def loadObj (w : World) (k : Key) : World × Outcome × List Write :=
     | .error e => (abort w, .dbError e, [])
     | .ok (w', ws) => let (w'', out) := fetch w' k; (w'', out, ws)
 
+/-- `_find_in_cache_` by primary key: `none` = the cache cannot answer and the database is asked -/
+def findInCache (w : World) (k : Key) : Option Outcome :=
+  if w.cache.inIndex k then
+    match w.cache.objs k with
+    | some o => if o.status = .markedToDelete then some .notFound else some (.found o.vals)
+    | none => some .notFound
+  else none
+
+/-- the answer of `SELECT .. WHERE pk = k` on a database state -/
+def queryDb (d : Db) (k : Key) : Outcome :=
+  match d.rows k with
+  | some r => .found r
+  | none => .notFound
+
 def commitOp (w : World) : World × Outcome × List Write :=
   match flushIfModified w with
   | .error e => (abort w, .dbError e, [])
